@@ -106,6 +106,19 @@ def run_index(prop, tier, seed, i):
     return sc, res
 
 
+def _abridge(sc):
+    """Scenario as written into the evidence file: long lists are cut (the run index regenerates the full form)."""
+    def cut(o):
+        if isinstance(o, dict):
+            return {k: cut(v) for k, v in o.items()}
+        if isinstance(o, list):
+            if len(o) > 12:
+                return [cut(x) for x in o[:8]] + ["... %d more entries" % (len(o) - 8)]
+            return [cut(x) for x in o]
+        return o
+    return cut(sc)
+
+
 def _chunk(args):
     prop, tier, seed, start, stop, hard_deadline = args
     faulthandler.enable()
@@ -136,7 +149,7 @@ def _chunk(args):
         if i % 97 == 0 or i < 64 or (chk.record_all_digests and i < chk.record_all_digests):
             out["digests"][i] = res.digest
         if len(out["samples"]) < 2 and res.violation is None:
-            out["samples"].append({"run_index": i, "scenario": sc, "rounds": res.rounds, "cells": res.cells, "digest": res.digest})
+            out["samples"].append({"run_index": i, "scenario": _abridge(sc), "rounds": res.rounds, "cells": res.cells, "digest": res.digest})
         if res.violation is not None:
             out["violations"].append({"i": i, "info": res.violation, "scenario": sc, "explicit": res.explicit, "chunk_start": start})
         if res.foreign is not None:
